@@ -29,183 +29,10 @@ import (
 	"testing"
 	"time"
 
-	"github.com/bluenviron/mediacommon/v2/pkg/formats/fmp4"
-	"github.com/bluenviron/mediacommon/v2/pkg/formats/pmp4"
 	"pgregory.net/rapid"
 
 	kit "github.com/bluenviron/mediamtx/internal/verifkit"
 )
-
-type c29OutSample struct {
-	DTS     int64
-	NonSync bool
-	Payload []byte
-}
-
-type c29OutTrack struct {
-	ID        int
-	TimeScale uint32
-	Samples   []c29OutSample
-}
-
-func c29ParseFMP4(body []byte) ([]c29OutTrack, error) {
-	var init fmp4.Init
-	if err := init.Unmarshal(bytes.NewReader(body)); err != nil {
-		return nil, fmt.Errorf("init: %w", err)
-	}
-	var parts fmp4.Parts
-	if err := parts.Unmarshal(body); err != nil {
-		return nil, fmt.Errorf("parts: %w", err)
-	}
-	var out []c29OutTrack
-	for _, it := range init.Tracks {
-		out = append(out, c29OutTrack{ID: it.ID, TimeScale: it.TimeScale})
-	}
-	lastSeq := int64(-1)
-	for _, p := range parts {
-		if int64(p.SequenceNumber) <= lastSeq {
-			return nil, fmt.Errorf("part sequence numbers not increasing (%d after %d)", p.SequenceNumber, lastSeq)
-		}
-		lastSeq = int64(p.SequenceNumber)
-		for _, pt := range p.Tracks {
-			var tr *c29OutTrack
-			for i := range out {
-				if out[i].ID == pt.ID {
-					tr = &out[i]
-				}
-			}
-			if tr == nil {
-				return nil, fmt.Errorf("part references track %d that the init does not declare", pt.ID)
-			}
-			dts := int64(pt.BaseTime)
-			for _, sa := range pt.Samples {
-				tr.Samples = append(tr.Samples, c29OutSample{DTS: dts, NonSync: sa.IsNonSyncSample, Payload: sa.Payload})
-				dts += int64(sa.Duration)
-			}
-		}
-	}
-	return out, nil
-}
-
-func c29ParseMP4(body []byte) ([]c29OutTrack, error) {
-	var p pmp4.Presentation
-	if err := p.Unmarshal(bytes.NewReader(body)); err != nil {
-		return nil, err
-	}
-	var out []c29OutTrack
-	for _, tr := range p.Tracks {
-		o := c29OutTrack{ID: tr.ID, TimeScale: tr.TimeScale}
-		dts := int64(tr.TimeOffset)
-		for _, sa := range tr.Samples {
-			pl, err := sa.GetPayload()
-			if err != nil {
-				return nil, fmt.Errorf("payload: %w", err)
-			}
-			o.Samples = append(o.Samples, c29OutSample{DTS: dts, NonSync: sa.IsNonSyncSample, Payload: pl})
-			dts += int64(sa.Duration)
-		}
-		out = append(out, o)
-	}
-	return out, nil
-}
-
-type c29Span struct{ A, B time.Time }
-
-func c29FmtT(t time.Time) string { return t.UTC().Format("15:04:05.000000") }
-
-// c29ListOracle: the recorded intervals clipped to [ws, we] (nil = unbounded), empty ones dropped.
-func c29ListOracle(disk []rbDiskSession, ws, we *time.Time) []c29Span {
-	var out []c29Span
-	for _, ds := range disk {
-		a, b := ds.A, ds.B
-		if ws != nil && a.Before(*ws) {
-			a = *ws
-		}
-		if we != nil && b.After(*we) {
-			b = *we
-		}
-		if a.Before(b) {
-			out = append(out, c29Span{a, b})
-		}
-	}
-	return out
-}
-
-type c29ListEntry struct {
-	Start    time.Time `json:"start"`
-	Duration float64   `json:"duration"`
-	URL      string    `json:"url"`
-}
-
-func c29AbsDur(d time.Duration) time.Duration {
-	if d < 0 {
-		return -d
-	}
-	return d
-}
-
-// c29CheckList compares an answer of /list with the oracle. tol bounds the quantisation error.
-func c29CheckList(code int, body []byte, want []c29Span, tol time.Duration) (zeroLen int, err error) {
-	if len(want) == 0 {
-		if code == http.StatusNotFound {
-			return 0, nil
-		}
-	}
-	if code != http.StatusOK {
-		if len(want) == 0 {
-			return 0, fmt.Errorf("status %d (%s), want 404 or an empty answer", code, body)
-		}
-		return 0, fmt.Errorf("status %d (%s), want %d spans", code, body, len(want))
-	}
-	var entries []c29ListEntry
-	if e := json.Unmarshal(body, &entries); e != nil {
-		return 0, fmt.Errorf("answer is not a JSON list: %v", e)
-	}
-	var got []c29Span
-	var prevEnd time.Time
-	for i, en := range entries {
-		d := time.Duration(en.Duration * float64(time.Second))
-		if d < -tol {
-			return 0, fmt.Errorf("entry %d has negative duration %v", i, en.Duration)
-		}
-		end := en.Start.Add(d)
-		if i > 0 && en.Start.Before(prevEnd.Add(-tol)) {
-			return 0, fmt.Errorf("entry %d starts at %s before the end of the previous one (%s): not ordered/disjoint",
-				i, c29FmtT(en.Start), c29FmtT(prevEnd))
-		}
-		prevEnd = end
-		if d <= tol {
-			zeroLen++
-			continue
-		}
-		got = append(got, c29Span{en.Start, end})
-		// the URL must describe the same span
-		u, e := url.Parse(en.URL)
-		if e != nil {
-			return 0, fmt.Errorf("entry %d: bad url %q", i, en.URL)
-		}
-		us, e := time.Parse(time.RFC3339, u.Query().Get("start"))
-		if e != nil || !us.Equal(en.Start) {
-			return 0, fmt.Errorf("entry %d: url start %q differs from start %s", i, u.Query().Get("start"), en.Start)
-		}
-	}
-	render := func(s []c29Span) string {
-		var b strings.Builder
-		for _, x := range s {
-			fmt.Fprintf(&b, "[%s,%s) ", c29FmtT(x.A), c29FmtT(x.B))
-		}
-		return b.String()
-	}
-	if len(got) != len(want) {
-		return 0, fmt.Errorf("spans %s want %s", render(got), render(want))
-	}
-	for i := range got {
-		if c29AbsDur(got[i].A.Sub(want[i].A)) > tol || c29AbsDur(got[i].B.Sub(want[i].B)) > tol {
-			return 0, fmt.Errorf("spans %s want %s", render(got), render(want))
-		}
-	}
-	return zeroLen, nil
-}
 
 // c29GetOracle describes, for one track, what /get may and must return.
 type c29GetWant struct {
@@ -224,7 +51,7 @@ func c29Run(disk []rbDiskSession, s time.Time, tol time.Duration) (idx int, ambi
 		if !s.Before(first) {
 			idx = i
 		}
-		if c29AbsDur(s.Sub(first)) <= tol && tol > 0 {
+		if rbAbsDur(s.Sub(first)) <= tol && tol > 0 {
 			ambiguous = true
 		}
 	}
@@ -239,6 +66,11 @@ func c29Run(disk []rbDiskSession, s time.Time, tol time.Duration) (idx int, ambi
 // but were written to a later part (the recorder writes every sample one unit late, so tracks with longer units
 // trail behind) are not returned.
 const c29KeyTailCut = "c29-get-stops-at-first-part-past-end"
+
+// c29KeyMP4Flush: confirmed defect (see TestVerifC29RegressMP4EmptyTrack). muxerMP4.flush decides "nothing found"
+// by looking only at the track of the last traf it read: when that track has no sample inside the window the
+// answer is 404 although other tracks do have samples in the window.
+const c29KeyMP4Flush = "c29-mp4-404-when-last-track-empty"
 
 func c29PartAfter(r *rbRec, seg, part int) bool {
 	return r.Seg > seg || (r.Seg == seg && r.Part > part)
@@ -294,16 +126,16 @@ func c29GetOracle(ds *rbDiskSession, spec *rbSpec, s time.Time, d time.Duration,
 }
 
 // c29CheckGet compares a parsed answer with the oracle. Returns a description of the first disagreement.
-func c29CheckGet(got []c29OutTrack, want []c29GetWant, spec *rbSpec, s time.Time, tickTol int64) error {
+func c29CheckGet(got []rbOutTrack, want []c29GetWant, spec *rbSpec, s time.Time, tickTol int64) error {
 	for _, w := range want {
 		clock := spec.clock(w.Track)
-		var g *c29OutTrack
+		var g *rbOutTrack
 		for i := range got {
 			if got[i].ID == w.Track+1 {
 				g = &got[i]
 			}
 		}
-		var samples []c29OutSample
+		var samples []rbOutSample
 		if g != nil {
 			if int64(g.TimeScale) != clock {
 				return fmt.Errorf("track %d: timescale %d want %d", w.Track+1, g.TimeScale, clock)
@@ -480,24 +312,6 @@ func c29DrawInstant(t *rapid.T, anchors []c29Anchor, gop []int, ragged bool, lab
 	return ts, lbl, a.InGOP
 }
 
-func c29IsRagged(spec *rbSpec) bool {
-	for _, se := range spec.Sessions {
-		if se.Start.Nanosecond()%int(time.Millisecond) != 0 {
-			return true
-		}
-		for _, u := range se.Units {
-			c := spec.clock(u.Track)
-			if u.Ticks%(c/1000) != 0 {
-				return true
-			}
-		}
-		if se.EndTicks%(spec.clock(0)/1000) != 0 {
-			return true
-		}
-	}
-	return false
-}
-
 func TestVerifC29Exact(t *testing.T) {
 	rec := kit.R("TestVerifC29Exact")
 	t.Cleanup(kit.Flush)
@@ -505,7 +319,7 @@ func TestVerifC29Exact(t *testing.T) {
 
 	rapid.Check(t, func(t *rapid.T) {
 		spec := rbGenSpec(t, rbGenOpts{MinSessions: 1, MaxSessions: 3, MinSegs: 1, MaxSegs: 3, Ragged: true})
-		ragged := c29IsRagged(spec)
+		ragged := rbIsRagged(spec)
 
 		dir, err := os.MkdirTemp(os.Getenv("VERIF_WORKDIR"), "c29-")
 		if err != nil {
@@ -515,7 +329,7 @@ func TestVerifC29Exact(t *testing.T) {
 
 		built, err := rbBuild(dir, spec)
 		if err != nil {
-			if err == errRBTimeout || strings.Contains(err.Error(), errRBTimeout.Error()) {
+			if strings.Contains(err.Error(), errRBTimeout.Error()) {
 				fmt.Println("VERIF-INCONCLUSIVE: " + err.Error())
 			}
 			t.Fatalf("recording builder: %v\nspec: %s", err, spec)
@@ -590,9 +404,9 @@ func TestVerifC29Exact(t *testing.T) {
 				}
 			}
 			desc.WriteString(" ; " + lbl)
-			want := c29ListOracle(disk, ws, we)
+			want := rbListOracle(disk, ws, we)
 			code, _, body := rbCall(srv, "list", q)
-			zl, err := c29CheckList(code, body, want, listTol)
+			zl, err := rbCheckList(code, body, want, listTol)
 			if err != nil {
 				t.Fatalf("/list %s: %v\nquery: %s\nanswer: %s\nspec: %s", lbl, err, q.Encode(), body, spec)
 			}
@@ -606,7 +420,7 @@ func TestVerifC29Exact(t *testing.T) {
 			}
 			// every listed span must be retrievable through its own URL (checked as a /get window below for the full list)
 			if wi == 0 && code == http.StatusOK {
-				var entries []c29ListEntry
+				var entries []rbListEntry
 				json.Unmarshal(body, &entries) //nolint:errcheck
 				for _, en := range entries {
 					u, _ := url.Parse(en.URL)
@@ -708,25 +522,33 @@ func c29OneGet(srv *Server, disk []rbDiskSession, spec *rbSpec, s time.Time, d t
 		}
 		must := 0
 		opt := 0
+		emptyTrack := false
 		for _, w := range want {
 			must += len(w.Must)
 			opt += len(w.OptHead) + len(w.OptTail)
+			if len(w.Must) == 0 {
+				emptyTrack = true
+			}
 		}
 		var err error
 		switch {
 		case code == http.StatusNotFound:
 			if must > 0 {
 				err = fmt.Errorf("status 404 although %d recorded samples lie in the window", must)
+				if format == "mp4" && emptyTrack && kit.Known(c29KeyMP4Flush) {
+					kit.R("TestVerifC29Exact").Excluded(c29KeyMP4Flush)
+					err = nil
+				}
 			}
 		case code != http.StatusOK:
 			err = fmt.Errorf("status %d: %s", code, body)
 		default:
-			var got []c29OutTrack
+			var got []rbOutTrack
 			var perr error
 			if format == "mp4" {
-				got, perr = c29ParseMP4(body)
+				got, perr = rbParseMP4(body)
 			} else {
-				got, perr = c29ParseFMP4(body)
+				got, perr = rbParseFMP4(body)
 			}
 			if perr != nil {
 				err = fmt.Errorf("answer (%d bytes) is not parsable as %s: %v", len(body), format, perr)
